@@ -1,4 +1,5 @@
 import ConjureVerif.Model.GenOrder
+import ConjureVerif.Lemmas.GenOrder
 import ConjureVerif.Gen.HashMapUses
 import ConjureVerif.Gen.CliMainSrc
 /-
@@ -12,6 +13,21 @@ What it cannot exhibit: the per-process hash seed and the file system — separa
 compared by the harness (support, not proof).
 -/
 set_option linter.unusedSimpArgs false
+namespace ConjureVerif.GenOrder
+theorem renderRoot_mem (lib : Bool) (t : Trie) (dir : List String) (p : List String × String)
+    (h : p ∈ t.renderRoot lib dir) : p ∈ t.render dir ∨ p.1 = dir ++ ["lib.rs"] := by
+  cases t with
+  | node types subs =>
+    simp only [Trie.renderRoot, Trie.render, List.mem_append, List.mem_singleton] at h ⊢
+    rcases h with (h | h) | h
+    · exact Or.inl (Or.inl (Or.inl h))
+    · exact Or.inl (Or.inl (Or.inr h))
+    · cases lib
+      · exact Or.inl (Or.inr (by simpa using h))
+      · right; rw [h]; rfl
+
+end ConjureVerif.GenOrder
+
 namespace ConjureVerif.C20
 open ConjureVerif ConjureVerif.GenOrder
 
@@ -88,162 +104,76 @@ theorem C20_model_order_free {κ ν : Type} [BEq κ] [LawfulBEq κ] (t t' : Tabl
 
 /-! #### files are created only beneath the output directory -/
 
-theorem mem_components_node (types : List (String × String)) (subs : Subs) (c : String) :
-    c ∈ (Trie.node types subs).components ↔ (∃ ty ∈ types, c = ty.1 ++ ".rs") ∨ c = "mod.rs" ∨ c ∈ subs.components := by
-  simp only [Trie.components, List.mem_append, List.mem_cons, List.mem_map]
-  constructor
-  · rintro (⟨ty, h, rfl⟩ | h | h)
-    · exact Or.inl ⟨ty, h, rfl⟩
-    · exact Or.inr (Or.inl h)
-    · exact Or.inr (Or.inr h)
-  · rintro (⟨ty, h, rfl⟩ | h | h)
-    · exact Or.inl ⟨ty, h, rfl⟩
-    · exact Or.inr (Or.inl h)
-    · exact Or.inr (Or.inr h)
-
-theorem mem_components_cons (k : String) (t : Trie) (more : Subs) (c : String) :
-    c ∈ (Subs.cons k t more).components ↔ c = k ∨ c ∈ t.components ∨ c ∈ more.components := by
-  simp only [Subs.components, List.mem_cons, List.mem_append, or_assoc]
-
-mutual
-theorem render_beneath : ∀ (t : Trie) (dir : List String) (p : List String × String), p ∈ t.render dir →
-    ∃ comps, p.1 = dir ++ comps ∧ comps ≠ [] ∧ ∀ c ∈ comps, c ∈ t.components
-  | .node types subs, dir, p, hp => by
-    simp only [Trie.render, List.mem_append, List.mem_map, List.mem_singleton] at hp
-    rcases hp with (⟨ty, hty, rfl⟩ | hs) | rfl
-    · refine ⟨[ty.1 ++ ".rs"], rfl, by simp, ?_⟩
-      intro c hc
-      rw [List.mem_singleton] at hc; subst hc
-      exact (mem_components_node _ _ _).mpr (Or.inl ⟨ty, hty, rfl⟩)
-    · obtain ⟨comps, h1, h2, h3⟩ := renderSubs_beneath subs dir p hs
-      exact ⟨comps, h1, h2, fun c hc => (mem_components_node _ _ _).mpr (Or.inr (Or.inr (h3 c hc)))⟩
-    · refine ⟨["mod.rs"], rfl, by simp, ?_⟩
-      intro c hc
-      rw [List.mem_singleton] at hc; subst hc
-      exact (mem_components_node _ _ _).mpr (Or.inr (Or.inl rfl))
-theorem renderSubs_beneath : ∀ (s : Subs) (dir : List String) (p : List String × String), p ∈ s.render dir →
-    ∃ comps, p.1 = dir ++ comps ∧ comps ≠ [] ∧ ∀ c ∈ comps, c ∈ s.components
-  | .nil, _, _, hp => by simp [Subs.render] at hp
-  | .cons name t rest, dir, p, hp => by
-    simp only [Subs.render, List.mem_append] at hp
-    rcases hp with h | h
-    · obtain ⟨comps, h1, _, h3⟩ := render_beneath t (dir ++ [name]) p h
-      refine ⟨name :: comps, by rw [h1]; simp, by simp, ?_⟩
-      intro c hc
-      rw [mem_components_cons]
-      rcases List.mem_cons.mp hc with rfl | hc
-      · exact Or.inl rfl
-      · exact Or.inr (Or.inl (h3 c hc))
-    · obtain ⟨comps, h1, h2, h3⟩ := renderSubs_beneath rest dir p h
-      exact ⟨comps, h1, h2, fun c hc => (mem_components_cons _ _ _ _).mpr (Or.inr (Or.inr (h3 c hc)))⟩
-end
-
-theorem empty_components (c : String) : c ∈ (Trie.node [] Subs.nil).components → c = "mod.rs" := by
-  intro h
-  rcases (mem_components_node _ _ _).mp h with ⟨ty, h, -⟩ | h | h
-  · cases h
-  · exact h
-  · simp [Subs.components] at h
-
-mutual
-theorem insert_components : ∀ (path : List String) (ty : String × String) (t : Trie) (c : String),
-    c ∈ (Trie.insert path ty t).components → c ∈ t.components ∨ c ∈ path ∨ c = ty.1 ++ ".rs" ∨ c = "mod.rs"
-  | [], ty, .node types subs, c, h => by
-    simp only [Trie.insert] at h
-    rcases (mem_components_node _ _ _).mp h with ⟨ty', hty, hc⟩ | h | h
-    · rcases List.mem_append.mp hty with h' | h'
-      · exact Or.inl ((mem_components_node _ _ _).mpr (Or.inl ⟨ty', h', hc⟩))
-      · rw [List.mem_singleton] at h'; subst h'; exact Or.inr (Or.inr (Or.inl hc))
-    · exact Or.inr (Or.inr (Or.inr h))
-    · exact Or.inl ((mem_components_node _ _ _).mpr (Or.inr (Or.inr h)))
-  | m :: rest, ty, .node types subs, c, h => by
-    simp only [Trie.insert] at h
-    rcases (mem_components_node _ _ _).mp h with ⟨ty', hty, hc⟩ | h | h
-    · exact Or.inl ((mem_components_node _ _ _).mpr (Or.inl ⟨ty', hty, hc⟩))
-    · exact Or.inr (Or.inr (Or.inr h))
-    · rcases insertSubs_components m rest ty subs c h with h | h | h | h
-      · exact Or.inl ((mem_components_node _ _ _).mpr (Or.inr (Or.inr h)))
-      · exact Or.inr (Or.inl h)
-      · exact Or.inr (Or.inr (Or.inl h))
-      · exact Or.inr (Or.inr (Or.inr h))
-theorem insertSubs_components : ∀ (m : String) (rest : List String) (ty : String × String) (s : Subs) (c : String),
-    c ∈ (Subs.insert m rest ty s).components → c ∈ s.components ∨ c ∈ m :: rest ∨ c = ty.1 ++ ".rs" ∨ c = "mod.rs"
-  | m, rest, ty, .nil, c, h => by
-    simp only [Subs.insert] at h
-    rcases (mem_components_cons _ _ _ _).mp h with rfl | h | h
-    · exact Or.inr (Or.inl (by simp))
-    · rcases insert_components rest ty (.node [] .nil) c h with h | h | h | h
-      · exact Or.inr (Or.inr (Or.inr (empty_components c h)))
-      · exact Or.inr (Or.inl (List.mem_cons_of_mem _ h))
-      · exact Or.inr (Or.inr (Or.inl h))
-      · exact Or.inr (Or.inr (Or.inr h))
-    · simp [Subs.components] at h
-  | m, rest, ty, .cons k t more, c, h => by
-    simp only [Subs.insert] at h
-    split at h
-    · rcases (mem_components_cons _ _ _ _).mp h with rfl | h | h
-      · exact Or.inr (Or.inl (by simp))
-      · rcases insert_components rest ty (.node [] .nil) c h with h | h | h | h
-        · exact Or.inr (Or.inr (Or.inr (empty_components c h)))
-        · exact Or.inr (Or.inl (List.mem_cons_of_mem _ h))
-        · exact Or.inr (Or.inr (Or.inl h))
-        · exact Or.inr (Or.inr (Or.inr h))
-      · exact Or.inl h
-    · split at h
-      · rcases (mem_components_cons _ _ _ _).mp h with h | h | h
-        · exact Or.inl ((mem_components_cons _ _ _ _).mpr (Or.inl h))
-        · rcases insert_components rest ty t c h with h | h | h | h
-          · exact Or.inl ((mem_components_cons _ _ _ _).mpr (Or.inr (Or.inl h)))
-          · exact Or.inr (Or.inl (List.mem_cons_of_mem _ h))
-          · exact Or.inr (Or.inr (Or.inl h))
-          · exact Or.inr (Or.inr (Or.inr h))
-        · exact Or.inl ((mem_components_cons _ _ _ _).mpr (Or.inr (Or.inr h)))
-      · rcases (mem_components_cons _ _ _ _).mp h with h | h | h
-        · exact Or.inl ((mem_components_cons _ _ _ _).mpr (Or.inl h))
-        · exact Or.inl ((mem_components_cons _ _ _ _).mpr (Or.inr (Or.inl h)))
-        · rcases insertSubs_components m rest ty more c h with h | h | h | h
-          · exact Or.inl ((mem_components_cons _ _ _ _).mpr (Or.inr (Or.inr h)))
-          · exact Or.inr (Or.inl h)
-          · exact Or.inr (Or.inr (Or.inl h))
-          · exact Or.inr (Or.inr (Or.inr h))
-end
-
-theorem fold_components {κ ν : Type} [BEq κ] (get : κ → Option ν) (emit : (κ → Option ν) → Item → String) :
-    ∀ (items : List Item) (t : Trie) (c : String),
-    c ∈ (items.foldl (fun t it => Trie.insert it.modulePath (it.name, emit get it) t) t).components →
-    c ∈ t.components ∨ (∃ it ∈ items, c ∈ it.modulePath ∨ c = it.name ++ ".rs") ∨ c = "mod.rs"
-  | [], t, c, h => Or.inl h
-  | it :: rest, t, c, h => by
-    simp only [List.foldl_cons] at h
-    rcases fold_components get emit rest _ c h with h | ⟨it', hit', h⟩ | h
-    · rcases insert_components it.modulePath (it.name, emit get it) t c h with h | h | h | h
-      · exact Or.inl h
-      · exact Or.inr (Or.inl ⟨it, by simp, Or.inl h⟩)
-      · exact Or.inr (Or.inl ⟨it, by simp, Or.inr h⟩)
-      · exact Or.inr (Or.inr h)
-    · exact Or.inr (Or.inl ⟨it', List.mem_cons_of_mem _ hit', h⟩)
-    · exact Or.inr (Or.inr h)
+/-- a component is safe when it is the root file, a module-path component of some item, or the (possibly renamed)
+module file of some item -/
+theorem component_safe {κ ν : Type} [BEq κ] (get : κ → Option ν) (items : List Item)
+    (emit : (κ → Option ν) → Item → String)
+    (hsafe : ∀ it ∈ items, (∀ c ∈ it.modulePath, safeComponent c = true) ∧ it.name.toList.any badChar = false)
+    (c : String)
+    (hc : IsComponent (items.foldl (fun t it => Trie.insert it.modulePath (it.name, emit get it) t) Trie.empty) c) :
+    safeComponent c = true := by
+  obtain ⟨h1, h2⟩ := fold_names get emit items Trie.empty
+  rcases hc with rfl | hm | ⟨n, hn, k, rfl⟩
+  · decide
+  · rcases h2 c hm with h | ⟨it, hit, h⟩
+    · simp [Trie.empty, Trie.modNames, Subs.modNames] at h
+    · exact (hsafe it hit).1 c h
+  · rcases h1 n hn with h | ⟨it, hit, rfl⟩
+    · simp [Trie.empty, Trie.typeNames, Subs.typeNames] at h
+    · exact safe_renamed it.name (hsafe it hit).2 k
 
 /-- **files only beneath the output directory**: every path the generator writes is the output directory
-followed by at least one component, each of which is a module-path component, `<module name>.rs` or `mod.rs`;
-when those are safe components (no separator, not `.`/`..` — true of the identifiers `module_path`/`module_name`
-produce), no path leaves the directory -/
+followed by at least one component, each of which is a module-path component, `<module name>.rs` (the name followed
+by underscores when a sub-package goes by it) or `mod.rs`; when module-path components are safe (no separator, not
+`.`/`..`) and module names hold no separator — true of the identifiers `module_path`/`module_name` produce — no path
+leaves the directory -/
 theorem C20_paths_beneath {κ ν : Type} [BEq κ] (table : Table κ ν) (items : List Item)
     (emit : (κ → Option ν) → Item → String)
-    (hsafe : ∀ it ∈ items, (∀ c ∈ it.modulePath, safeComponent c = true) ∧ safeComponent (it.name ++ ".rs") = true)
+    (hsafe : ∀ it ∈ items, (∀ c ∈ it.modulePath, safeComponent c = true) ∧ it.name.toList.any badChar = false)
     (p : List String × String) (hp : p ∈ generate table items emit) :
     p.1 ≠ [] ∧ ∀ c ∈ p.1, safeComponent c = true := by
   unfold generate at hp
   obtain ⟨comps, h1, h2, h3⟩ := render_beneath _ [] p hp
   simp only [List.nil_append] at h1
   rw [h1]
-  refine ⟨h2, ?_⟩
-  intro c hc
-  rcases fold_components table.get emit items Trie.empty c (h3 c hc) with h | ⟨it, hit, h | h⟩ | h
-  · rw [empty_components c h]; decide
-  · exact (hsafe it hit).1 c h
-  · rw [h]; exact (hsafe it hit).2
-  · subst h; decide
+  exact ⟨h2, fun c hc => component_safe table.get items emit hsafe c (h3 c hc)⟩
+
+/-- **crate mode**: the generated crate is the manifest and `rustfmt.toml` in the output directory and everything
+else beneath `src`; the table's enumeration does not matter here either, and no path leaves the output directory -/
+theorem C20_crate_paths_beneath {κ ν : Type} [BEq κ] (table : Table κ ν) (items : List Item)
+    (emit : (κ → Option ν) → Item → String) (manifest : String)
+    (hsafe : ∀ it ∈ items, (∀ c ∈ it.modulePath, safeComponent c = true) ∧ it.name.toList.any badChar = false)
+    (p : List String × String) (hp : p ∈ generateCrate table items emit manifest) :
+    (p.1 = ["Cargo.toml"] ∨ p.1 = ["rustfmt.toml"] ∨ ∃ rest, p.1 = "src" :: rest ∧ rest ≠ []) ∧
+    ∀ c ∈ p.1, safeComponent c = true := by
+  unfold generateCrate at hp
+  simp only [List.cons_append, List.nil_append, List.mem_cons] at hp
+  rcases hp with rfl | rfl | hp
+  · refine ⟨Or.inl rfl, ?_⟩
+    intro c hc; simp only [List.mem_singleton] at hc; subst hc; decide
+  · refine ⟨Or.inr (Or.inl rfl), ?_⟩
+    intro c hc; simp only [List.mem_singleton] at hc; subst hc; decide
+  · rcases GenOrder.renderRoot_mem true _ ["src"] p hp with h | h
+    · obtain ⟨comps, h1, h2, h3⟩ := render_beneath _ ["src"] p h
+      refine ⟨Or.inr (Or.inr ⟨comps, by simpa using h1, h2⟩), ?_⟩
+      intro c hc
+      rw [h1] at hc
+      simp only [List.cons_append, List.nil_append, List.mem_cons] at hc
+      rcases hc with rfl | hc
+      · decide
+      · exact component_safe table.get items emit hsafe c (h3 c hc)
+    · refine ⟨Or.inr (Or.inr ⟨["lib.rs"], by simpa using h, by simp⟩), ?_⟩
+      intro c hc; rw [h] at hc
+      simp only [List.cons_append, List.nil_append, List.mem_cons, List.not_mem_nil, or_false] at hc
+      rcases hc with rfl | rfl <;> decide
+
+theorem C20_crate_order_free {κ ν : Type} [BEq κ] [LawfulBEq κ] (t t' : Table κ ν) (hp : t.Perm t')
+    (hn : (t.map (·.1)).Nodup) (items : List Item) (emit : (κ → Option ν) → Item → String) (manifest : String) :
+    generateCrate t items emit manifest = generateCrate t' items emit manifest := by
+  have hget : t.get = t'.get := by
+    funext k; exact lookup_perm_invariant t t' hp hn k
+  unfold generateCrate; rw [hget]
+
 
 /-! #### non-vacuity: two enumerations of one table, with distinct keys -/
 example : ([(1, "a"), (2, "b")] : List (Nat × String)).Perm [(2, "b"), (1, "a")] ∧
